@@ -690,7 +690,10 @@ func (d *Driver) finishOp(op *Op, resp opResp) {
 			if to < time.Second {
 				to = time.Second
 			}
-			if op.Kind == "update" && op.TRet-op.TInvoke >= to {
+			if op.obj.termRiseStep > op.SInvoke {
+				// the acknowledgement of a write of an earlier term, arriving after the object has
+				// started a new one: says nothing about the current term's record
+			} else if op.Kind == "update" && op.TRet-op.TInvoke >= to {
 				op.obj.lateAck = true
 			} else {
 				op.obj.lastAckRev = op.ResRev
